@@ -26,9 +26,9 @@ ASSUMPTIONS = ["naming is not judged for a field with env=True when no enclosing
 
 SCHEMA_SET = ["absent", "true", "named", "false"]
 FIELD_SET = ["absent", "true", "named", "false"]
-KEYS = ["ccv7s", "ccv7d"]          # nested schema keys
+KEYS = ["ccv7s_", "ccv7d"]         # nested schema keys (one ends in an underscore: names are joined with "_" whatever the parts end in)
 FKEY = "ccv7f"
-PREFIX = {0: "CCV7app", 1: "CCV7p1x", 2: "CCV7P2"}        # named prefixes are used as written (mixed case included)
+PREFIX = {0: "CCV7app", 1: "CCV7p1x_", 2: "CCV7P2"}        # named prefixes are used as written (mixed case included)
 FNAMED = "CCV7NAMED"
 
 KINDS = {
@@ -44,6 +44,9 @@ KINDS = {
               "assign": b"assigned", "default": b"dflt"},
     "bytes-hex": {"mk": lambda cc, **kw: cc.BytesField("hex", **kw), "valid": ("6869", b"6869"), "invalid": None, "decoy": "00", "file": "66696c65", "file2": "66696c6532",
                   "assign": b"assigned", "default": b"dflt"},
+    # free text: the variable's text is the value, blanks included (a blanks-only variable is a non-empty variable)
+    "text": {"mk": lambda cc, **kw: cc.StringField(**kw), "valid": ("  padded text\t", "  padded text\t"), "falsy": (" ", " "), "invalid": None, "decoy": "decoy text", "file": "from file",
+             "file2": "from file 2", "assign": "assigned text", "default": "dflt text"},
     "float": {"mk": lambda cc, **kw: cc.FloatField(**kw), "valid": ("2.5", 2.5), "falsy": ("0.0", 0.0), "invalid": "x", "decoy": "7.5", "file": 3.5, "file2": 4.5, "assign": 8.5, "default": 1.5},
 }
 CONTAINER_KINDS = {
